@@ -34,8 +34,8 @@ func inAnyLoop(b *ssa.BasicBlock) bool { return innermostLoop(b) != nil }
 // loopsAllowed: calls of a send-chain function that legitimately sit in a loop, keyed by the
 // calling package and the callee (not by the calling function: splitting the caller is benign).
 var loopsAllowed = map[string]string{
-	"queryer | queryer.(*MultiOpQueryer).fetchFile":  "one multipart request per input that carries files: each iteration sends a different request exactly once",
-	"executor | executor.(*DepthExecutor).Execute": "one pass per plan depth (checked separately: the depth variable strictly increases)",
+	"queryer | queryer.(*MultiOpQueryer).fetchFile": "one multipart request per input that carries files: each iteration sends a different request exactly once",
+	"executor | executor.(*DepthExecutor).Execute":  "one pass per plan depth (checked separately: the depth variable strictly increases)",
 }
 
 // sendChain computes the functions on call paths from root to a call of the named sink:
